@@ -8,9 +8,19 @@ What is proved here: (1) for equal flags the model is a function of the history 
 two backends that both correspond to the model are observationally equal on every history;
 (2) each flag in its pinned-commit value yields an observable divergence (kernel-checked witness).
 That BOTH real backends correspond to the model is the tie of this check (three backends, every
-run); a representation-level simulation (nested dicts vs SQL tables) is not modelled.
+run).
+
+(3) Representation level (Model/Stores.lean): `ram_datastore.py`'s nested dictionaries and
+`sql_datastore.py`'s tables are modelled separately, method by method.  The nested-dict store is
+proved to be the ABSTRACTION (`absQ`) of the table store along every sequence of study / trial
+writes the service can issue, and every read returns the same value on both
+(`c07_store_simulation`); the one place where the two stores differ at the datastore level -
+`create_trial` into a study that does not exist - is exhibited (`c07_create_trial_orphan_counterexample`)
+and excluded by the guard the service provides.  `len(ops)` (RAM) and `max(operation_number)` (SQL)
+agree on consecutively numbered operation lists (`c07_op_number_len_eq_max`).
 -/
 import VizierModel.Lemmas.ServiceEs
+import VizierModel.Lemmas.StoresRun
 
 namespace VizierModel.C07
 open VizierModel.Svc
@@ -55,5 +65,66 @@ theorem c07_ram_metadata_counterexample :
 /-- the datastore invariants the equivalence relies on hold after every history on either backend -/
 theorem c07_invariants (cfg : Cfg) (hs : List Req) : Inv (run cfg DB.empty hs) :=
   run_inv cfg DB.empty hs inv_empty
+
+/-! ### (3) representation level -/
+open VizierModel.Stores in
+/-- For every sequence of study / trial write calls (failing calls included) from the empty stores:
+    the same calls fail with the same error kind on both stores, and every read call returns the same
+    value afterwards - nested dictionaries and tables are observationally equal. -/
+theorem c07_store_simulation (ops : List WOp) (rd : ROp) :
+    (Ram.empty.runW ops).2 = (Sql.empty.runW ops).2 ∧
+    (Ram.empty.runW ops).1.read rd = (Sql.empty.runW ops).1.read rd := by
+  have h := runW_sim Sql.empty wf_empty ops
+  rw [absQ_empty] at h
+  refine ⟨by rw [h.1], ?_⟩
+  rw [h.1]
+  exact read_sim _ h.2 rd
+
+open VizierModel.Stores in
+/-- the table invariants (unique keys, owners registered, no trial row without its study) hold after
+    every such sequence -/
+theorem c07_store_wf (ops : List WOp) : WF (Sql.empty.runW ops).1 :=
+  (runW_sim Sql.empty wf_empty ops).2
+
+open VizierModel.Stores in
+/-- non-vacuity: a concrete history with successes, failures and a delete / re-create -/
+example :
+    let t : Trial := { id := 1, state := .active, client := "w", params := 3, meas := [], final := none, reason := "", md := [] }
+    let h : Head := { state := .active, spec := 0, md := [] }
+    (Sql.empty.runW [.createStudy ("o", "s") h, .createTrial ("o", "s") t, .createTrial ("o", "s") t,
+                     .deleteStudy ("o", "s"), .createStudy ("o", "s") h, .updateTrial ("o", "s") t]).2 =
+      [none, none, some .alreadyExists, none, none, some .notFound] := by decide
+
+open VizierModel.Stores in
+/-- WITHOUT the service's guard the stores differ: SQL `create_trial` does not check that the study
+    exists and stores an orphan row, RAM reports NOT_FOUND (replayed on the real stores by the check) -/
+theorem c07_create_trial_orphan_counterexample :
+    let t : Trial := { id := 1, state := .active, client := "", params := 0, meas := [], final := none, reason := "", md := [] }
+    (match Sql.empty.createTrial ("o", "s") t with | .ok q => q.trials.length | .error _ => 0) = 1 ∧
+    (match Ram.empty.createTrial ("o", "s") t with | .error .notFound => true | _ => false) = true := by
+  decide
+
+/-- `len(ops)` (RAM `max_suggestion_operation_number`) = `max(operation_number)` (SQL) when the
+    operations of a (study, client) are numbered 1, 2, 3, … — which `run_opsNumbered` proves for
+    every history of the service -/
+theorem c07_op_number_len_eq_max (l : List SugOp) (h : l.map (·.num) = List.range' 1 l.length) :
+    l.foldl (fun m o => max m o.num) 0 = l.length := by
+  have key : ∀ (n s m : Nat), (List.range' s n).foldl max m = if n = 0 then m else max m (s + n - 1) := by
+    intro n
+    induction n with
+    | zero => intro s m; simp
+    | succ n ih =>
+      intro s m
+      rw [List.range'_succ, List.foldl_cons, ih]
+      by_cases hn : n = 0
+      · subst hn; simp
+      · simp only [hn, if_false, Nat.succ_ne_zero]
+        omega
+  have : l.foldl (fun m o => max m o.num) 0 = (l.map (·.num)).foldl max 0 := by
+    rw [List.foldl_map]
+  rw [this, h, key]
+  by_cases hl : l.length = 0
+  · simp [hl]
+  · simp only [hl, if_false]; omega
 
 end VizierModel.C07
